@@ -91,11 +91,37 @@ class _Comp:
         return f"({f} {a} {b})"
 
 
-def _def_term(name, node, kind, comment):
+_ATTR_ORDER = []      # `self.X` attributes in the order `__init__` assigns them (set by extract)
+
+
+def _binding_order(fn):
+    """names in the order the SOURCE binds them in `fn`: parameters in signature order (without `self`), then locals by the
+       position of their first assignment (tuple targets and nested `def` parameters included), then the `self.X` attributes in the
+       order `__init__` assigns them.  The parameter list of a generated term follows THIS order — not the order of appearance in
+       the expression — so swapping two operands in the source changes the term instead of silently renaming its parameters."""
+    order = [a.arg for a in fn.args.args if a.arg != "self"]
+    stores = []
+    for n in ast.walk(fn):
+        if isinstance(n, ast.Name) and isinstance(n.ctx, ast.Store):
+            stores.append((n.lineno, n.col_offset, n.id))
+        elif isinstance(n, ast.FunctionDef) and n is not fn:
+            stores += [(a.lineno, a.col_offset, a.arg) for a in n.args.args if a.arg != "self"]
+    for _l, _c, nm in sorted(stores):
+        if nm not in order:
+            order.append(nm)
+    return order + [a for a in _ATTR_ORDER if a not in order]
+
+
+def _def_term(name, node, kind, comment, fn):
     c = _Comp()
     body = c.test(node) if kind == "test" else c.term(node)
     ty = "Bool" if kind == "test" else "α"
-    params = f" ({' '.join(c.params)} : α)" if c.params else ""
+    order = _binding_order(fn)
+    unknown = [q for q in c.params if q not in order]
+    if unknown:
+        raise Unavailable(f"{name}: {unknown} are bound neither in {fn.name} nor in __init__")
+    ps = sorted(c.params, key=order.index)
+    params = f" ({' '.join(ps)} : α)" if ps else ""
     return f"/-- `{comment}` -/\ndef {name}{params} : {ty} := {body}"
 
 
@@ -174,28 +200,34 @@ def _strip_not(n):
 def extract():
     tree = _parse("tempest/steps/reweight.py")
     defs, tabs = [], {}
+    init0 = _find_func(tree, "Reweighter", "__init__")
+    _ATTR_ORDER[:] = []
+    for n in sorted((n for n in ast.walk(init0) if isinstance(n, ast.Attribute) and isinstance(n.ctx, ast.Store)
+                     and _name(n.value) == "self"), key=lambda n: (n.lineno, n.col_offset)):
+        if n.attr not in _ATTR_ORDER:
+            _ATTR_ORDER.append(n.attr)
 
     # ---- _find_beta_upper_limit
     up = _find_func(tree, "Reweighter", "_find_beta_upper_limit")
     ub = _body(up)
-    defs.append(_def_term("upInitHigh", _assign_value(ub, "beta_high"), "term", "beta_high = …"))
+    defs.append(_def_term("upInitHigh", _assign_value(ub, "beta_high"), "term", "beta_high = …", up))
     uifs = _ifs(ub)
     if len(uifs) != 2:
         raise Unavailable("_find_beta_upper_limit: expected two top-level ifs")
-    defs.append(_def_term("upStayTest", uifs[0].test, "test", ast.unparse(uifs[0].test)))
-    defs.append(_def_term("upOneTest", uifs[1].test, "test", ast.unparse(uifs[1].test)))
+    defs.append(_def_term("upStayTest", uifs[0].test, "test", ast.unparse(uifs[0].test), up))
+    defs.append(_def_term("upOneTest", uifs[1].test, "test", ast.unparse(uifs[1].test), up))
     ret1 = _only([s for s in uifs[1].body if isinstance(s, ast.Return)], "return in the second if")
-    defs.append(_def_term("upOneReturn", ret1.value, "term", "return …"))
+    defs.append(_def_term("upOneReturn", ret1.value, "term", "return …", up))
     calls = [n for n in ast.walk(up) if isinstance(n, ast.Call) and (_name(n.func) or "").endswith("_compute_metric_and_weights")]
     if len(calls) != 3:
         raise Unavailable("_find_beta_upper_limit: expected three oracle calls")
     calls.sort(key=lambda n: n.lineno)
-    defs.append(_def_term("upSecondArg", calls[1].args[0], "term", "the argument of the second oracle call"))
+    defs.append(_def_term("upSecondArg", calls[1].args[0], "term", "the argument of the second oracle call", up))
     wh = _only([s for s in ub if isinstance(s, ast.While)], "while loop")
-    defs.append(_def_term("upWhileTest", wh.test, "test", ast.unparse(wh.test)))
-    defs.append(_def_term("upMid", _assign_value(wh.body, "beta_mid"), "term", "beta_mid = …"))
+    defs.append(_def_term("upWhileTest", wh.test, "test", ast.unparse(wh.test), up))
+    defs.append(_def_term("upMid", _assign_value(wh.body, "beta_mid"), "term", "beta_mid = …", up))
     wi = _only(_ifs(wh.body), "if in the loop")
-    defs.append(_def_term("upRaiseTest", wi.test, "test", ast.unparse(wi.test)))
+    defs.append(_def_term("upRaiseTest", wi.test, "test", ast.unparse(wi.test), up))
     tabs["upperLimitSkeleton"] = _skeleton(up)
 
     # ---- _find_beta_bisection
@@ -204,7 +236,7 @@ def extract():
     if not (isinstance(wh.test, ast.Constant) and wh.test.value is True):
         raise Unavailable("_find_beta_bisection: loop is not `while True`")
     wb = wh.body
-    defs.append(_def_term("bisMid", _assign_value(wb, "beta"), "term", "beta = …"))
+    defs.append(_def_term("bisMid", _assign_value(wb, "beta"), "term", "beta = …", bis))
     bifs = _ifs(wb)
     if len(bifs) != 2:
         raise Unavailable("_find_beta_bisection: expected two ifs in the loop")
@@ -215,22 +247,22 @@ def extract():
     inner = _only(_ifs(bifs[0].body), "mode test under the finiteness guard")
     if ast.unparse(inner.test) != "self.volume_variation is not None":
         raise Unavailable("_find_beta_bisection: replacement is not split on `self.volume_variation is not None`")
-    defs.append(_def_term("bisNonfiniteDyn", _assign_value(inner.body, "metric_val"), "term", "metric_val = … (volume-variation mode)"))
-    defs.append(_def_term("bisNonfiniteEss", _assign_value(inner.orelse, "metric_val"), "term", "metric_val = … (ESS mode)"))
-    defs.append(_def_term("bisMetricConv", _assign_value(wb, "metric_converged"), "test", "metric_converged = …"))
-    defs.append(_def_term("bisBetaConv", _assign_value(wb, "beta_converged"), "test", "beta_converged = …"))
+    defs.append(_def_term("bisNonfiniteDyn", _assign_value(inner.body, "metric_val"), "term", "metric_val = … (volume-variation mode)", bis))
+    defs.append(_def_term("bisNonfiniteEss", _assign_value(inner.orelse, "metric_val"), "term", "metric_val = … (ESS mode)", bis))
+    defs.append(_def_term("bisMetricConv", _assign_value(wb, "metric_converged"), "test", "metric_converged = …", bis))
+    defs.append(_def_term("bisBetaConv", _assign_value(wb, "beta_converged"), "test", "beta_converged = …", bis))
     stop = bifs[1].test
     if not (isinstance(stop, ast.BoolOp) and isinstance(stop.op, ast.Or) and len(stop.values) == 3
             and _name(stop.values[0]) == "metric_converged" and _name(stop.values[1]) == "beta_converged"):
         raise Unavailable("_find_beta_bisection: stop test is not `metric_converged or beta_converged or <test>`")
-    defs.append(_def_term("bisOneTest", stop.values[2], "test", ast.unparse(stop.values[2])))
+    defs.append(_def_term("bisOneTest", stop.values[2], "test", ast.unparse(stop.values[2]), bis))
     rest = bifs[1].orelse
     if not (len(rest) == 1 and isinstance(rest[0], ast.If) and ast.unparse(rest[0].test) == "self.volume_variation is None"):
         raise Unavailable("_find_beta_bisection: update is not split on `self.volume_variation is None`")
     e_if = _only(_ifs(rest[0].body), "ESS-mode update test")
     d_if = _only(_ifs(rest[0].orelse), "volume-variation update test")
-    defs.append(_def_term("bisEssTest", e_if.test, "test", ast.unparse(e_if.test) + "  (ESS mode)"))
-    defs.append(_def_term("bisDynTest", d_if.test, "test", ast.unparse(d_if.test) + "  (volume-variation mode)"))
+    defs.append(_def_term("bisEssTest", e_if.test, "test", ast.unparse(e_if.test) + "  (ESS mode)", bis))
+    defs.append(_def_term("bisDynTest", d_if.test, "test", ast.unparse(d_if.test) + "  (volume-variation mode)", bis))
     tabs["bisectionSkeleton"] = _skeleton(bis)
 
     # ---- run
@@ -244,25 +276,25 @@ def extract():
     d = {k.value: v for k, v in zip(upd.args[0].keys, upd.args[0].values) if isinstance(k, ast.Constant)}
     if sorted(d) != ["beta", "ess", "logz"]:
         raise Unavailable(f"run: first iteration writes {sorted(d)}")
-    defs.append(_def_term("firstBeta", d["beta"], "term", "'beta': …"))
-    defs.append(_def_term("firstLogz", d["logz"], "term", "'logz': …"))
-    defs.append(_def_term("firstEss", d["ess"], "term", "'ess': …"))
-    defs.append(_def_term("runTarget", _assign_value(rb, "ess_max"), "term", "ess_max = …"))
+    defs.append(_def_term("firstBeta", d["beta"], "term", "'beta': …", run))
+    defs.append(_def_term("firstLogz", d["logz"], "term", "'logz': …", run))
+    defs.append(_def_term("firstEss", d["ess"], "term", "'ess': …", run))
+    defs.append(_def_term("runTarget", _assign_value(rb, "ess_max"), "term", "ess_max = …", run))
     mode = _only([s for s in _ifs(rb) if ast.unparse(s.test) == "self.volume_variation is None"], "mode test in run")
-    defs.append(_def_term("essTarget", _assign_value(mode.body, "target_ess"), "term", "target_ess = …"))
+    defs.append(_def_term("essTarget", _assign_value(mode.body, "target_ess"), "term", "target_ess = …", run))
     e0 = _only(_ifs(mode.body), "boundary test chain (ESS mode)")
-    defs.append(_def_term("essStayTest", e0.test, "test", ast.unparse(e0.test)))
+    defs.append(_def_term("essStayTest", e0.test, "test", ast.unparse(e0.test), run))
     if not (len(e0.orelse) == 1 and isinstance(e0.orelse[0], ast.If)):
         raise Unavailable("run: ESS-mode boundary chain is not if/elif/else")
-    defs.append(_def_term("essUpperTest", e0.orelse[0].test, "test", ast.unparse(e0.orelse[0].test)))
+    defs.append(_def_term("essUpperTest", e0.orelse[0].test, "test", ast.unparse(e0.orelse[0].test), run))
     d0 = _only(_ifs(mode.orelse), "stuck test (volume-variation mode)")
-    defs.append(_def_term("dynStuckTest", d0.test, "test", ast.unparse(d0.test)))
+    defs.append(_def_term("dynStuckTest", d0.test, "test", ast.unparse(d0.test), run))
     d1 = [s for s in _ifs(d0.orelse) if "weights is None" not in ast.unparse(s.test)]
     d1 = _only(d1, "boundary test chain (volume-variation mode)")
-    defs.append(_def_term("dynUpperTest", d1.test, "test", ast.unparse(d1.test)))
+    defs.append(_def_term("dynUpperTest", d1.test, "test", ast.unparse(d1.test), run))
     if not (len(d1.orelse) == 1 and isinstance(d1.orelse[0], ast.If)):
         raise Unavailable("run: volume-variation boundary chain is not if/elif/else")
-    defs.append(_def_term("dynStayTest", d1.orelse[0].test, "test", ast.unparse(d1.orelse[0].test)))
+    defs.append(_def_term("dynStayTest", d1.orelse[0].test, "test", ast.unparse(d1.orelse[0].test), run))
     tabs["runSkeleton"] = _skeleton(run)
     tabs["finalizeSkeleton"] = _skeleton(_find_func(tree, "Reweighter", "_finalize_iteration"))
     tabs["metricSkeleton"] = _skeleton(_find_func(tree, "Reweighter", "_compute_metric_and_weights"))
